@@ -71,30 +71,32 @@ def verify(ident, name):
     return 0
 
 
-def evaluate(name, props, tier, budget):
+def evaluate(name, props, tier, budget, repo='/repo'):
     dst = os.path.join(SEEDED, name)
     meta = json.load(open(os.path.join(dst, 'meta.json')))
     props = props or [meta['property']]
-    rc, o = sh(['git', '-C', '/repo', 'status', '--porcelain'])
+    rc, o = sh(['git', '-C', repo, 'status', '--porcelain'])
     if o.strip():
-        print('/repo is not clean; refusing')
+        print('%s is not clean; refusing' % repo)
         return 2
     patch = os.path.join(dst, 'patch.rebased.diff')
     if not os.path.exists(patch):
         patch = os.path.join(dst, 'patch.diff')
-    rc, o = sh(['git', '-C', '/repo', 'apply', patch])
+    rc, o = sh(['git', '-C', repo, 'apply', patch])
     if rc != 0:
         # /repo moved on (later fix: commits): fall back to a 3-way merge of the hunk
-        rc, o = sh(['git', '-C', '/repo', 'apply', '--3way', patch])
-        sh(['git', '-C', '/repo', 'reset', '-q'])
+        rc, o = sh(['git', '-C', repo, 'apply', '--3way', patch])
+        sh(['git', '-C', repo, 'reset', '-q'])
     if rc != 0:
-        print('patch does not apply to /repo: %s' % o)
-        sh(['git', '-C', '/repo', 'checkout', '--', '.'])
+        print('patch does not apply to %s: %s' % (repo, o))
+        sh(['git', '-C', repo, 'checkout', '--', '.'])
         return 2
     res = meta.setdefault('evaluation', {})
     try:
         for p in props:
             env = dict(os.environ)
+            if repo != '/repo':
+                env['VERIF_REPO'] = repo
             if budget:
                 env['VERIF_BUDGET_S'] = str(budget)
             rc, o = sh([os.path.join(VERIF, 'check'), p, '--tier', tier, '--no-evidence'], env=env,
@@ -107,7 +109,7 @@ def evaluate(name, props, tier, budget):
             if rc == 2:
                 print(o[-1500:])
     finally:
-        sh(['git', '-C', '/repo', 'checkout', '--', '.'])
+        sh(['git', '-C', repo, 'checkout', '--', '.'])
         rep = os.path.join(VERIF, 'replays')
         for f in os.listdir(rep) if os.path.isdir(rep) else []:
             os.remove(os.path.join(rep, f))
@@ -123,10 +125,12 @@ def main():
     ap.add_argument('--props')
     ap.add_argument('--tier', default='quick')
     ap.add_argument('--budget', type=int, default=0)
+    ap.add_argument('--repo', default='/repo',
+                    help='evaluate against a scratch worktree instead of /repo (VERIF_REPO)')
     a = ap.parse_args()
     if a.cmd == 'verify':
         return verify(a.ident, a.name or a.ident.lower() + '-a')
-    return evaluate(a.ident, a.props.split(',') if a.props else None, a.tier, a.budget)
+    return evaluate(a.ident, a.props.split(',') if a.props else None, a.tier, a.budget, a.repo)
 
 
 if __name__ == '__main__':
